@@ -160,7 +160,9 @@ Inductive action :=
 | AThrow (r : reason) (c : bool)      (* if(c) throw  — c is an I/O oracle already resolved *)
 | ANdim (n : nat)
 | AShape (os ks ns : list nat)
-| AAuxs (n : nat) (l : list auxent).
+| AAuxs (n : nat) (l : list auxent)
+| AReset.                             (* the arrays that held the inner pointers (knots[i], aux[i], aux[i][k]) are gone and every member
+                                         pointer has been set to NULL: no slot is left; an inner block still owned would be unreachable (lost) *)
 
 Definition after_free (s : slot) : slot := match s with Owned _ _ => Dangling | x => x end.
 
@@ -188,6 +190,8 @@ Fixpoint exec (F : nat -> bool) (p : list action) (m : mem) (o : obj) : obj * me
     | ANdim n => exec F rest m (with_ndim o n)
     | AShape os ks ns => exec F rest m (with_shape o os ks ns)
     | AAuxs n l => exec F rest m (with_auxs o n l)
+    | AReset => exec F rest (fold_left (fun m fs => m_lose m (snd fs)) (slots o) m)
+                     {| ndim := ndim o; orders := orders o; nknots := nknots o; naxes := naxes o; naux := naux o; auxs := auxs o; slots := [] |}
     end
   end.
 
@@ -237,7 +241,7 @@ Definition table_release_fixed (o : obj) : list action :=
   ++ [AFreeIf FPeriods; AFreeIf FCoeff; AFreeIf FNaxes; AFreeIf FStrides].
 
 Definition clear_prog (o : obj) : list action :=
-  table_release_fixed o ++ aux_release_fixed o ++ [ANdim 0; AShape [] [] []].
+  table_release_fixed o ++ aux_release_fixed o ++ [ANdim 0; AShape [] [] []; AReset].
 
 Definition destructor_prog (c : cfg) (o : obj) : list action :=
   if fx_clear c then clear_prog o
